@@ -389,6 +389,7 @@ fn execute_case(case: &C18Case, want_trace: bool) -> simcore::Outcome {
     s.u64(c.offset as u64);
     s.u64(c.buf as u64);
     s.u8(c.implicit as u8);
+    s.str(&format!("{:?}", c.via));
     stats.states.push(s.finish());
     let trace = {
         let mut w = world.borrow_mut();
@@ -402,7 +403,9 @@ fn execute_case(case: &C18Case, want_trace: bool) -> simcore::Outcome {
     simcore::Outcome { violation, stats, trace }
 }
 
-const GRID: u64 = 256 * 256 * 6 * 2 * 2; // len x offset x buffer size x chip family x header mode
+const GRID: u64 = 256 * 256 * 6 * 2 * 8; // len x offset x buffer size x chip family x (header mode, access path)
+/// explicit header through all five paths, implicit header through the three LoRa-level paths
+const PATHS: [(bool, Via); 8] = [(false, Via::Driver), (false, Via::CompleteRx), (false, Via::GetRxResult), (false, Via::LwSingle), (false, Via::LwContinuous), (true, Via::Driver), (true, Via::CompleteRx), (true, Via::GetRxResult)];
 
 fn boundary_u8(r: &mut Rng, around: &[u16]) -> u8 {
     if r.chance(1, 2) {
@@ -438,7 +441,7 @@ impl Property for C18 {
     }
     fn rule(&self) -> String {
         format!(
-            "thorough: runs 0..{GRID} walk the full grid 256 reported lengths x 256 offsets x caller buffer sizes {{0,1,12,64,255,256}} x {{SX126x,SX127x}} x {{explicit,implicit header}} in a seeded affine order (implicit header: the length axis is the configured length and the chip-reported length is random); chip variant, board options, access path (driver get_rx_payload+get_rx_packet_status / LoRa::complete_rx / LoRa::get_rx_result / LorawanRadio::rx_single / rx_continuous), status bytes (error classes 3,4,5 over-sampled), rssi/snr/signal-rssi bytes and an optional SPI fault on one of the read transactions are seeded random per cell; further runs are boundary-biased random samples. quick: boundary-biased random samples only (lengths/offsets near 0, buffer size, 255, 256-len). A run is non-trivial when the fetch returned (Ok or Err) or panicked; distinct = (chip family, path, result class, header mode, len>buffer, wrap-around, fault, buffer size)."
+            "thorough: runs 0..{GRID} walk the full grid 256 reported lengths x 256 offsets x caller buffer sizes {{0,1,12,64,255,256}} x {{SX126x,SX127x}} x {{explicit header via driver get_rx_payload+get_rx_packet_status / LoRa::complete_rx / LoRa::get_rx_result / LorawanRadio::rx_single / rx_continuous, implicit header via the first three}} in a seeded affine order (implicit header: the length axis is the configured length and the chip-reported length is random); chip variant, board options, single/continuous mode, status bytes (error classes 3,4,5 over-sampled), rssi/snr/signal-rssi bytes and an optional SPI fault on one of the read transactions are seeded random per cell; further runs are boundary-biased random samples. quick: boundary-biased random samples only (lengths/offsets near 0, buffer size, 255, 256-len). A run is non-trivial when the fetch returned (Ok or Err) or panicked; distinct = (chip family, path, result class, header mode, len>buffer, wrap-around, fault, buffer size)."
         )
     }
     fn assumptions(&self) -> Vec<String> {
@@ -454,7 +457,7 @@ impl Property for C18 {
     }
     fn budget(&self, tier: Tier) -> u64 {
         match tier {
-            Tier::Quick => 300_000,
+            Tier::Quick => 2_000_000,
             Tier::Thorough => GRID + 1_000_000,
         }
     }
@@ -486,11 +489,13 @@ impl Property for C18 {
             let cell = (run.wrapping_mul(a).wrapping_add(b)) % GRID;
             let len = (cell & 0xFF) as u8;
             let offset = ((cell >> 8) & 0xFF) as u8;
-            let rest = cell >> 16; // 0..24
+            let rest = cell >> 16; // 0..96
             c.buf = BUF_SIZES[(rest % 6) as usize];
             let fam126 = (rest / 6) % 2 == 0;
-            c.implicit = (rest / 12) % 2 == 1;
+            let (implicit, via) = PATHS[((rest / 12) % 8) as usize];
+            c.implicit = implicit;
             fill_random(&mut r, &mut c, fam126);
+            c.via = via;
             c.offset = offset;
             if c.implicit {
                 c.cfg_len = len;
